@@ -5,7 +5,7 @@ SPEC="$1"; TRACE_FILE="$2"; WORK="${3:-/verif/work/trace}"
 mkdir -p "$WORK"
 cd /verif/spec || exit 2
 OUT="$WORK/tlc.out"
-TRACE="$TRACE_FILE" JAVA_TOOL_OPTIONS="-Xss1g -Dtlc2.tool.queue.IStateQueue=StateDeque" \
+TRACE="$TRACE_FILE" JAVA_TOOL_OPTIONS="-Xss1g -Xmx4g -XX:ActiveProcessorCount=2 -Dtlc2.tool.queue.IStateQueue=StateDeque" \
   timeout -k 10 "${TRACE_TIMEOUT:-900}" tlc -workers 1 -metadir "$WORK/meta" -cleanup -noGenerateSpecTE \
   -config "$SPEC.cfg" "$SPEC.tla" > "$OUT" 2>&1
 RC=$?
